@@ -1,0 +1,890 @@
+//go:build verif
+
+// Verification hooks (build tag "verif" only): read-only exports of unexported
+// functions of this package for the conformance harnesses in /verif
+// (key derivation, handshake message codecs, session-state codecs, record
+// protection).  Nothing here changes the behaviour of the package.
+
+package tls
+
+import (
+	"crypto/md5"
+	"crypto/sha1"
+	"crypto/sha256"
+	"crypto/sha512"
+	"errors"
+	"fmt"
+	"hash"
+	"io"
+	"reflect"
+	"sort"
+	"unsafe"
+)
+
+// ---------------------------------------------------------------------------
+// Key derivation (prf.go, key_schedule.go)
+
+func verifHash(name string) (func() hash.Hash, error) {
+	switch name {
+	case "md5":
+		return md5.New, nil
+	case "sha1":
+		return sha1.New, nil
+	case "sha256":
+		return sha256.New, nil
+	case "sha384":
+		return sha512.New384, nil
+	}
+	return nil, fmt.Errorf("verif: unknown hash %q", name)
+}
+
+// VerifPHash is pHash with the hash selected by name (md5, sha1, sha256, sha384).
+func VerifPHash(hashName string, result, secret, seed []byte) error {
+	h, err := verifHash(hashName)
+	if err != nil {
+		return err
+	}
+	pHash(result, secret, seed, h)
+	return nil
+}
+
+// VerifPRF10 is prf10.
+func VerifPRF10(result, secret, label, seed []byte) { prf10(result, secret, label, seed) }
+
+// VerifPRF12 is prf12(hash).
+func VerifPRF12(hashName string, result, secret, label, seed []byte) error {
+	h, err := verifHash(hashName)
+	if err != nil {
+		return err
+	}
+	prf12(h)(result, secret, label, seed)
+	return nil
+}
+
+func verifSuite(version, suiteID uint16) (*cipherSuite, error) {
+	switch version {
+	case VersionTLS10, VersionTLS11, VersionTLS12:
+	default:
+		return nil, fmt.Errorf("verif: version %#x has no TLS 1.0-1.2 PRF", version)
+	}
+	s := cipherSuiteByID(suiteID)
+	if s == nil {
+		return nil, fmt.Errorf("verif: unknown cipher suite %#x", suiteID)
+	}
+	return s, nil
+}
+
+// VerifPRFForVersion is prfForVersion(version, suite)(result, secret, label, seed).
+func VerifPRFForVersion(version, suiteID uint16, result, secret, label, seed []byte) error {
+	s, err := verifSuite(version, suiteID)
+	if err != nil {
+		return err
+	}
+	prfForVersion(version, s)(result, secret, label, seed)
+	return nil
+}
+
+// VerifMasterFromPreMasterSecret is masterFromPreMasterSecret.
+func VerifMasterFromPreMasterSecret(version, suiteID uint16, preMasterSecret, clientRandom, serverRandom []byte) ([]byte, error) {
+	s, err := verifSuite(version, suiteID)
+	if err != nil {
+		return nil, err
+	}
+	return masterFromPreMasterSecret(version, s, preMasterSecret, clientRandom, serverRandom), nil
+}
+
+// VerifKeys is the result of keysFromMasterSecret.
+type VerifKeys struct {
+	ClientMAC, ServerMAC, ClientKey, ServerKey, ClientIV, ServerIV []byte
+}
+
+// VerifKeysFromMasterSecret is keysFromMasterSecret with explicit lengths.
+func VerifKeysFromMasterSecret(version, suiteID uint16, masterSecret, clientRandom, serverRandom []byte, macLen, keyLen, ivLen int) (VerifKeys, error) {
+	s, err := verifSuite(version, suiteID)
+	if err != nil {
+		return VerifKeys{}, err
+	}
+	var k VerifKeys
+	k.ClientMAC, k.ServerMAC, k.ClientKey, k.ServerKey, k.ClientIV, k.ServerIV =
+		keysFromMasterSecret(version, s, masterSecret, clientRandom, serverRandom, macLen, keyLen, ivLen)
+	return k, nil
+}
+
+// VerifEKMFromMasterSecret is ekmFromMasterSecret.
+func VerifEKMFromMasterSecret(version, suiteID uint16, masterSecret, clientRandom, serverRandom []byte) (func(string, []byte, int) ([]byte, error), error) {
+	s, err := verifSuite(version, suiteID)
+	if err != nil {
+		return nil, err
+	}
+	return ekmFromMasterSecret(version, s, masterSecret, clientRandom, serverRandom), nil
+}
+
+// VerifFinished feeds the transcript pieces to a newFinishedHash(version, suite) and
+// returns clientSum, serverSum and Sum().
+func VerifFinished(version, suiteID uint16, masterSecret []byte, transcript [][]byte) (client, server, sum []byte, err error) {
+	s, err := verifSuite(version, suiteID)
+	if err != nil {
+		return nil, nil, nil, err
+	}
+	fh := newFinishedHash(version, s)
+	for _, t := range transcript {
+		fh.Write(t)
+	}
+	return fh.clientSum(masterSecret), fh.serverSum(masterSecret), fh.Sum(), nil
+}
+
+func verifSuite13(id uint16) (*cipherSuiteTLS13, error) {
+	s := cipherSuiteTLS13ByID(id)
+	if s == nil {
+		return nil, fmt.Errorf("verif: unknown TLS 1.3 cipher suite %#x", id)
+	}
+	return s, nil
+}
+
+func verifTranscript(s *cipherSuiteTLS13, transcript [][]byte) hash.Hash {
+	h := s.hash.New()
+	for _, t := range transcript {
+		h.Write(t)
+	}
+	return h
+}
+
+// VerifExpandLabel is cipherSuiteTLS13.expandLabel.
+func VerifExpandLabel(suiteID uint16, secret []byte, label string, context []byte, length int) ([]byte, error) {
+	s, err := verifSuite13(suiteID)
+	if err != nil {
+		return nil, err
+	}
+	return s.expandLabel(secret, label, context, length), nil
+}
+
+// VerifDeriveSecret is cipherSuiteTLS13.deriveSecret; nilTranscript selects the
+// transcript == nil call form, otherwise the transcript hash is fed the given pieces.
+func VerifDeriveSecret(suiteID uint16, secret []byte, label string, transcript [][]byte, nilTranscript bool) ([]byte, error) {
+	s, err := verifSuite13(suiteID)
+	if err != nil {
+		return nil, err
+	}
+	if nilTranscript {
+		return s.deriveSecret(secret, label, nil), nil
+	}
+	return s.deriveSecret(secret, label, verifTranscript(s, transcript)), nil
+}
+
+// VerifExtract is cipherSuiteTLS13.extract (newSecret nil = absent).
+func VerifExtract(suiteID uint16, newSecret, currentSecret []byte) ([]byte, error) {
+	s, err := verifSuite13(suiteID)
+	if err != nil {
+		return nil, err
+	}
+	return s.extract(newSecret, currentSecret), nil
+}
+
+// VerifNextTrafficSecret is cipherSuiteTLS13.nextTrafficSecret.
+func VerifNextTrafficSecret(suiteID uint16, trafficSecret []byte) ([]byte, error) {
+	s, err := verifSuite13(suiteID)
+	if err != nil {
+		return nil, err
+	}
+	return s.nextTrafficSecret(trafficSecret), nil
+}
+
+// VerifTrafficKey is cipherSuiteTLS13.trafficKey.
+func VerifTrafficKey(suiteID uint16, trafficSecret []byte) (key, iv []byte, err error) {
+	s, err := verifSuite13(suiteID)
+	if err != nil {
+		return nil, nil, err
+	}
+	key, iv = s.trafficKey(trafficSecret)
+	return key, iv, nil
+}
+
+// VerifFinishedHash13 is cipherSuiteTLS13.finishedHash over the given transcript pieces.
+func VerifFinishedHash13(suiteID uint16, baseKey []byte, transcript [][]byte) ([]byte, error) {
+	s, err := verifSuite13(suiteID)
+	if err != nil {
+		return nil, err
+	}
+	return s.finishedHash(baseKey, verifTranscript(s, transcript)), nil
+}
+
+// VerifExportKeyingMaterial13 is cipherSuiteTLS13.exportKeyingMaterial.
+func VerifExportKeyingMaterial13(suiteID uint16, masterSecret []byte, transcript [][]byte) (func(string, []byte, int) ([]byte, error), error) {
+	s, err := verifSuite13(suiteID)
+	if err != nil {
+		return nil, err
+	}
+	return s.exportKeyingMaterial(masterSecret, verifTranscript(s, transcript)), nil
+}
+
+// ---------------------------------------------------------------------------
+// Suite tables
+
+// VerifSuite describes one TLS 1.0-1.2 cipher suite as cipherSuiteByID resolves it.
+type VerifSuite struct {
+	ID                     uint16
+	KeyLen, MacLen, IVLen  int
+	Kind                   string // "stream", "cbc", "aead"
+	Kx                     string // "RSA", "ECDHE_RSA", "ECDHE_ECDSA", "DHE_RSA", "DHE_DSS", "?"
+	TLS12Only, SHA384, DSS bool
+	Flags                  int
+}
+
+func verifDescribe(s *cipherSuite) VerifSuite {
+	v := VerifSuite{ID: s.id, KeyLen: s.keyLen, MacLen: s.macLen, IVLen: s.ivLen, Flags: s.flags,
+		TLS12Only: s.flags&suiteTLS12 != 0, SHA384: s.flags&suiteSHA384 != 0, DSS: s.flags&suiteDSS != 0}
+	switch {
+	case s.aead != nil:
+		v.Kind = "aead"
+	case s.ivLen == 0:
+		v.Kind = "stream"
+	default:
+		v.Kind = "cbc"
+	}
+	v.Kx = "?"
+	if s.ka != nil {
+		switch ka := s.ka(VersionTLS12).(type) {
+		case *rsaKeyAgreement:
+			v.Kx = "RSA"
+		case *ecdheKeyAgreement:
+			if ka.isRSA {
+				v.Kx = "ECDHE_RSA"
+			} else {
+				v.Kx = "ECDHE_ECDSA"
+			}
+		case *dheKeyAgreement:
+			if s.flags&suiteDSS != 0 {
+				v.Kx = "DHE_DSS"
+			} else {
+				v.Kx = "DHE_RSA"
+			}
+		}
+	}
+	return v
+}
+
+// VerifSuiteByID is cipherSuiteByID.
+func VerifSuiteByID(id uint16) (VerifSuite, bool) {
+	s := cipherSuiteByID(id)
+	if s == nil {
+		return VerifSuite{}, false
+	}
+	return verifDescribe(s), true
+}
+
+// VerifSuites lists every distinct suite id of implementedCipherSuites, each as
+// cipherSuiteByID resolves it (first entry wins), in table order.
+func VerifSuites() []VerifSuite {
+	seen := map[uint16]bool{}
+	var res []VerifSuite
+	for _, s := range implementedCipherSuites {
+		if seen[s.id] {
+			continue
+		}
+		seen[s.id] = true
+		res = append(res, verifDescribe(cipherSuiteByID(s.id)))
+	}
+	return res
+}
+
+// VerifSuite13 describes one TLS 1.3 cipher suite.
+type VerifSuite13 struct {
+	ID     uint16
+	KeyLen int
+	Hash   string // "sha256" / "sha384"
+}
+
+// VerifSuitesTLS13 lists cipherSuitesTLS13.
+func VerifSuitesTLS13() []VerifSuite13 {
+	var res []VerifSuite13
+	for _, s := range cipherSuitesTLS13 {
+		h := "sha256"
+		if s.hash.Size() == 48 {
+			h = "sha384"
+		}
+		res = append(res, VerifSuite13{ID: s.id, KeyLen: s.keyLen, Hash: h})
+	}
+	return res
+}
+
+// ---------------------------------------------------------------------------
+// Handshake message and session-state codecs (handshake_messages.go, ticket.go)
+
+var verifMsgTypes = map[string]func() handshakeMessage{
+	"clientHelloMsg":             func() handshakeMessage { return new(clientHelloMsg) },
+	"serverHelloMsg":             func() handshakeMessage { return new(serverHelloMsg) },
+	"encryptedExtensionsMsg":     func() handshakeMessage { return new(encryptedExtensionsMsg) },
+	"endOfEarlyDataMsg":          func() handshakeMessage { return new(endOfEarlyDataMsg) },
+	"keyUpdateMsg":               func() handshakeMessage { return new(keyUpdateMsg) },
+	"newSessionTicketMsgTLS13":   func() handshakeMessage { return new(newSessionTicketMsgTLS13) },
+	"certificateRequestMsgTLS13": func() handshakeMessage { return new(certificateRequestMsgTLS13) },
+	"certificateMsg":             func() handshakeMessage { return new(certificateMsg) },
+	"certificateMsgTLS13":        func() handshakeMessage { return new(certificateMsgTLS13) },
+	"serverKeyExchangeMsg":       func() handshakeMessage { return new(serverKeyExchangeMsg) },
+	"certificateStatusMsg":       func() handshakeMessage { return new(certificateStatusMsg) },
+	"serverHelloDoneMsg":         func() handshakeMessage { return new(serverHelloDoneMsg) },
+	"clientKeyExchangeMsg":       func() handshakeMessage { return new(clientKeyExchangeMsg) },
+	"finishedMsg":                func() handshakeMessage { return new(finishedMsg) },
+	"certificateRequestMsg":      func() handshakeMessage { return new(certificateRequestMsg) },
+	"certificateVerifyMsg":       func() handshakeMessage { return new(certificateVerifyMsg) },
+	"newSessionTicketMsg":        func() handshakeMessage { return new(newSessionTicketMsg) },
+	"helloRequestMsg":            func() handshakeMessage { return new(helloRequestMsg) },
+	"sessionState":               func() handshakeMessage { return new(sessionState) },
+	"sessionStateTLS13":          func() handshakeMessage { return new(sessionStateTLS13) },
+}
+
+// VerifMessageTypes lists the type names VerifNewMessage accepts (sorted).
+func VerifMessageTypes() []string {
+	var res []string
+	for k := range verifMsgTypes {
+		res = append(res, k)
+	}
+	sort.Strings(res)
+	return res
+}
+
+// VerifMsg wraps one handshake message / session-state value of this package.
+type VerifMsg struct {
+	name string
+	m    handshakeMessage
+}
+
+// VerifNewMessage returns a zero value of the named message type, or nil.
+func VerifNewMessage(typeName string) *VerifMsg {
+	f, ok := verifMsgTypes[typeName]
+	if !ok {
+		return nil
+	}
+	return &VerifMsg{name: typeName, m: f()}
+}
+
+// VerifWrapMessage wraps a message returned by other hooks of this package (for
+// example a message observed in readHandshake); nil if it is not a known type.
+func VerifWrapMessage(m interface{}) *VerifMsg {
+	hm, ok := m.(handshakeMessage)
+	if !ok || hm == nil {
+		return nil
+	}
+	t := reflect.TypeOf(hm)
+	if t.Kind() != reflect.Ptr {
+		return nil
+	}
+	if _, ok := verifMsgTypes[t.Elem().Name()]; !ok {
+		return nil
+	}
+	return &VerifMsg{name: t.Elem().Name(), m: hm}
+}
+
+func (v *VerifMsg) TypeName() string { return v.name }
+
+// Marshal calls the real marshal method (which may cache its result in raw).
+func (v *VerifMsg) Marshal() []byte { return v.m.marshal() }
+
+// Unmarshal calls the real unmarshal method.
+func (v *VerifMsg) Unmarshal(data []byte) bool { return v.m.unmarshal(data) }
+
+// ResetRaw clears the cached encoding (field raw), if the type has one.
+func (v *VerifMsg) ResetRaw() {
+	f := reflect.ValueOf(v.m).Elem().FieldByName("raw")
+	if f.IsValid() {
+		verifSettable(f).Set(reflect.Zero(f.Type()))
+	}
+}
+
+func verifSettable(f reflect.Value) reflect.Value {
+	return reflect.NewAt(f.Type(), unsafe.Pointer(f.UnsafeAddr())).Elem()
+}
+
+// FieldNames lists the struct fields of the message except the cached encoding "raw".
+func (v *VerifMsg) FieldNames() []string {
+	t := reflect.TypeOf(v.m).Elem()
+	var res []string
+	for i := 0; i < t.NumField(); i++ {
+		if n := t.Field(i).Name; n != "raw" {
+			res = append(res, n)
+		}
+	}
+	return res
+}
+
+// Get returns a field in a normalised form:
+// unsigned integers -> uint64, bool, string, []byte, numeric slices -> []uint64,
+// [][]byte, []string, []keyShare -> []map{"group":uint64,"data":[]byte},
+// []pskIdentity -> []map{"label":[]byte,"obfuscatedTicketAge":uint64},
+// Certificate -> map{"certs":[][]byte,"ocsp":[]byte|nil,"scts":[][]byte|nil,"hasOCSP":bool,"hasSCTs":bool},
+// keyShare -> map.  Unknown field: (nil, false).
+func (v *VerifMsg) Get(field string) (interface{}, bool) {
+	f := reflect.ValueOf(v.m).Elem().FieldByName(field)
+	if !f.IsValid() {
+		return nil, false
+	}
+	return verifNormalise(verifSettable(f)), true
+}
+
+func verifNormalise(f reflect.Value) interface{} {
+	switch f.Kind() {
+	case reflect.Bool:
+		return f.Bool()
+	case reflect.Uint8, reflect.Uint16, reflect.Uint32, reflect.Uint64, reflect.Uint:
+		return f.Uint()
+	case reflect.String:
+		return f.String()
+	case reflect.Slice:
+		et := f.Type().Elem()
+		switch {
+		case et.Kind() == reflect.Uint8:
+			b := make([]byte, f.Len())
+			reflect.Copy(reflect.ValueOf(b), f)
+			return b
+		case et.Kind() == reflect.Uint16 || et.Kind() == reflect.Uint32:
+			res := make([]uint64, f.Len())
+			for i := range res {
+				res[i] = f.Index(i).Uint()
+			}
+			return res
+		case et.Kind() == reflect.String:
+			res := make([]string, f.Len())
+			for i := range res {
+				res[i] = f.Index(i).String()
+			}
+			return res
+		case et.Kind() == reflect.Slice && et.Elem().Kind() == reflect.Uint8:
+			res := make([][]byte, f.Len())
+			for i := range res {
+				res[i] = append([]byte{}, f.Index(i).Bytes()...)
+			}
+			return res
+		case et.Kind() == reflect.Struct:
+			res := make([]map[string]interface{}, f.Len())
+			for i := range res {
+				res[i] = verifNormalise(f.Index(i)).(map[string]interface{})
+			}
+			return res
+		}
+	case reflect.Struct:
+		if c, ok := f.Interface().(Certificate); ok {
+			m := map[string]interface{}{"hasOCSP": c.OCSPStaple != nil, "hasSCTs": c.SignedCertificateTimestamps != nil}
+			certs := make([][]byte, len(c.Certificate))
+			for i := range certs {
+				certs[i] = append([]byte{}, c.Certificate[i]...)
+			}
+			m["certs"] = certs
+			m["ocsp"] = append([]byte{}, c.OCSPStaple...)
+			scts := make([][]byte, len(c.SignedCertificateTimestamps))
+			for i := range scts {
+				scts[i] = append([]byte{}, c.SignedCertificateTimestamps[i]...)
+			}
+			m["scts"] = scts
+			return m
+		}
+		m := map[string]interface{}{}
+		for i := 0; i < f.NumField(); i++ {
+			m[f.Type().Field(i).Name] = verifNormalise(verifSettable(f.Field(i)))
+		}
+		return m
+	}
+	return fmt.Sprintf("verif: unsupported kind %s", f.Kind())
+}
+
+// Set assigns a field from the normalised form described at Get (numbers may also be
+// int / int64 / float64; a nil value gives the zero value; for Certificate the keys
+// "hasOCSP"/"hasSCTs" = true with an empty list give a non-nil empty slice).
+func (v *VerifMsg) Set(field string, value interface{}) error {
+	f := reflect.ValueOf(v.m).Elem().FieldByName(field)
+	if !f.IsValid() {
+		return fmt.Errorf("verif: %s has no field %q", v.name, field)
+	}
+	return verifAssign(verifSettable(f), value)
+}
+
+func verifUint(value interface{}) (uint64, error) {
+	switch x := value.(type) {
+	case uint64:
+		return x, nil
+	case uint32:
+		return uint64(x), nil
+	case uint16:
+		return uint64(x), nil
+	case uint8:
+		return uint64(x), nil
+	case uint:
+		return uint64(x), nil
+	case int:
+		return uint64(x), nil
+	case int64:
+		return uint64(x), nil
+	case float64:
+		return uint64(x), nil
+	}
+	return 0, fmt.Errorf("verif: %T is not a number", value)
+}
+
+func verifBytes(value interface{}) ([]byte, error) {
+	switch x := value.(type) {
+	case nil:
+		return nil, nil
+	case []byte:
+		if x == nil {
+			return nil, nil
+		}
+		return append([]byte{}, x...), nil
+	case string:
+		return []byte(x), nil
+	}
+	return nil, fmt.Errorf("verif: %T is not a byte string", value)
+}
+
+func verifByteLists(value interface{}) ([][]byte, error) {
+	switch x := value.(type) {
+	case nil:
+		return nil, nil
+	case [][]byte:
+		if x == nil {
+			return nil, nil
+		}
+		res := make([][]byte, len(x))
+		for i := range x {
+			res[i] = append([]byte{}, x[i]...)
+		}
+		return res, nil
+	case []string:
+		res := make([][]byte, len(x))
+		for i := range x {
+			res[i] = []byte(x[i])
+		}
+		return res, nil
+	case []interface{}:
+		res := make([][]byte, len(x))
+		for i := range x {
+			b, err := verifBytes(x[i])
+			if err != nil {
+				return nil, err
+			}
+			res[i] = b
+		}
+		return res, nil
+	}
+	return nil, fmt.Errorf("verif: %T is not a list of byte strings", value)
+}
+
+func verifAssign(f reflect.Value, value interface{}) error {
+	if value == nil {
+		f.Set(reflect.Zero(f.Type()))
+		return nil
+	}
+	switch f.Kind() {
+	case reflect.Bool:
+		b, ok := value.(bool)
+		if !ok {
+			return fmt.Errorf("verif: %T is not a bool", value)
+		}
+		f.SetBool(b)
+		return nil
+	case reflect.Uint8, reflect.Uint16, reflect.Uint32, reflect.Uint64, reflect.Uint:
+		u, err := verifUint(value)
+		if err != nil {
+			return err
+		}
+		f.SetUint(u)
+		return nil
+	case reflect.String:
+		b, err := verifBytes(value)
+		if err != nil {
+			return err
+		}
+		f.SetString(string(b))
+		return nil
+	case reflect.Slice:
+		et := f.Type().Elem()
+		switch {
+		case et.Kind() == reflect.Uint8:
+			b, err := verifBytes(value)
+			if err != nil {
+				return err
+			}
+			s := reflect.MakeSlice(f.Type(), len(b), len(b))
+			reflect.Copy(s, reflect.ValueOf(b))
+			f.Set(s)
+			return nil
+		case et.Kind() == reflect.Uint16 || et.Kind() == reflect.Uint32:
+			var nums []uint64
+			switch x := value.(type) {
+			case []uint64:
+				nums = x
+			case []uint16:
+				for _, n := range x {
+					nums = append(nums, uint64(n))
+				}
+			case []int:
+				for _, n := range x {
+					nums = append(nums, uint64(n))
+				}
+			case []interface{}:
+				for _, n := range x {
+					u, err := verifUint(n)
+					if err != nil {
+						return err
+					}
+					nums = append(nums, u)
+				}
+			default:
+				return fmt.Errorf("verif: %T is not a list of numbers", value)
+			}
+			s := reflect.MakeSlice(f.Type(), len(nums), len(nums))
+			for i, n := range nums {
+				s.Index(i).SetUint(n)
+			}
+			f.Set(s)
+			return nil
+		case et.Kind() == reflect.String:
+			l, err := verifByteLists(value)
+			if err != nil {
+				return err
+			}
+			s := reflect.MakeSlice(f.Type(), len(l), len(l))
+			for i := range l {
+				s.Index(i).SetString(string(l[i]))
+			}
+			f.Set(s)
+			return nil
+		case et.Kind() == reflect.Slice && et.Elem().Kind() == reflect.Uint8:
+			l, err := verifByteLists(value)
+			if err != nil {
+				return err
+			}
+			s := reflect.MakeSlice(f.Type(), len(l), len(l))
+			for i := range l {
+				s.Index(i).SetBytes(l[i])
+			}
+			f.Set(s)
+			return nil
+		case et.Kind() == reflect.Struct:
+			var items []map[string]interface{}
+			switch x := value.(type) {
+			case []map[string]interface{}:
+				items = x
+			case []interface{}:
+				for _, it := range x {
+					m, ok := it.(map[string]interface{})
+					if !ok {
+						return fmt.Errorf("verif: %T is not a record", it)
+					}
+					items = append(items, m)
+				}
+			default:
+				return fmt.Errorf("verif: %T is not a list of records", value)
+			}
+			s := reflect.MakeSlice(f.Type(), len(items), len(items))
+			for i := range items {
+				if err := verifAssign(s.Index(i), items[i]); err != nil {
+					return err
+				}
+			}
+			f.Set(s)
+			return nil
+		}
+	case reflect.Struct:
+		m, ok := value.(map[string]interface{})
+		if !ok {
+			return fmt.Errorf("verif: %T is not a record", value)
+		}
+		if _, isCert := f.Interface().(Certificate); isCert {
+			var c Certificate
+			var err error
+			if c.Certificate, err = verifByteLists(m["certs"]); err != nil {
+				return err
+			}
+			if c.OCSPStaple, err = verifBytes(m["ocsp"]); err != nil {
+				return err
+			}
+			if has, _ := m["hasOCSP"].(bool); has && c.OCSPStaple == nil {
+				c.OCSPStaple = []byte{}
+			} else if has, ok := m["hasOCSP"].(bool); ok && !has {
+				c.OCSPStaple = nil
+			}
+			if c.SignedCertificateTimestamps, err = verifByteLists(m["scts"]); err != nil {
+				return err
+			}
+			if has, _ := m["hasSCTs"].(bool); has && c.SignedCertificateTimestamps == nil {
+				c.SignedCertificateTimestamps = [][]byte{}
+			} else if has, ok := m["hasSCTs"].(bool); ok && !has {
+				c.SignedCertificateTimestamps = nil
+			}
+			f.Set(reflect.ValueOf(c))
+			return nil
+		}
+		for k, val := range m {
+			sf := f.FieldByName(k)
+			if !sf.IsValid() {
+				return fmt.Errorf("verif: %s has no field %q", f.Type(), k)
+			}
+			if err := verifAssign(verifSettable(sf), val); err != nil {
+				return err
+			}
+		}
+		return nil
+	}
+	return fmt.Errorf("verif: cannot assign field of kind %s", f.Kind())
+}
+
+// VerifUnmarshalHandshake builds the message type that readHandshake would choose for
+// data[0] under the given negotiated version, and unmarshals data into it.
+// ok=false with msg!=nil: unmarshal failed; msg==nil: unknown handshake type.
+func VerifUnmarshalHandshake(vers uint16, data []byte) (msg *VerifMsg, ok bool) {
+	if len(data) < 4 {
+		return nil, false
+	}
+	var m handshakeMessage
+	switch data[0] {
+	case typeHelloRequest:
+		m = new(helloRequestMsg)
+	case typeClientHello:
+		m = new(clientHelloMsg)
+	case typeServerHello:
+		m = new(serverHelloMsg)
+	case typeNewSessionTicket:
+		if vers == VersionTLS13 {
+			m = new(newSessionTicketMsgTLS13)
+		} else {
+			m = new(newSessionTicketMsg)
+		}
+	case typeCertificate:
+		if vers == VersionTLS13 {
+			m = new(certificateMsgTLS13)
+		} else {
+			m = new(certificateMsg)
+		}
+	case typeCertificateRequest:
+		if vers == VersionTLS13 {
+			m = new(certificateRequestMsgTLS13)
+		} else {
+			m = &certificateRequestMsg{hasSignatureAlgorithm: vers >= VersionTLS12}
+		}
+	case typeCertificateStatus:
+		m = new(certificateStatusMsg)
+	case typeServerKeyExchange:
+		m = new(serverKeyExchangeMsg)
+	case typeServerHelloDone:
+		m = new(serverHelloDoneMsg)
+	case typeClientKeyExchange:
+		m = new(clientKeyExchangeMsg)
+	case typeCertificateVerify:
+		m = &certificateVerifyMsg{hasSignatureAlgorithm: vers >= VersionTLS12}
+	case typeFinished:
+		m = new(finishedMsg)
+	case typeEncryptedExtensions:
+		m = new(encryptedExtensionsMsg)
+	case typeEndOfEarlyData:
+		m = new(endOfEarlyDataMsg)
+	case typeKeyUpdate:
+		m = new(keyUpdateMsg)
+	default:
+		return nil, false
+	}
+	msg = &VerifMsg{name: reflect.TypeOf(m).Elem().Name(), m: m}
+	return msg, m.unmarshal(append([]byte(nil), data...))
+}
+
+// VerifFingerprintMarshal is (*ClientFingerprintConfiguration).marshal(config).
+func VerifFingerprintMarshal(c *ClientFingerprintConfiguration, config *Config) ([]byte, error) {
+	return c.marshal(config)
+}
+
+// ---------------------------------------------------------------------------
+// Record protection (conn.go, cipher_suites.go)
+
+// VerifMaxPlaintext etc. are the record-layer limits of this package.
+const (
+	VerifMaxPlaintext       = maxPlaintext
+	VerifMaxCiphertext      = maxCiphertext
+	VerifMaxCiphertextTLS13 = maxCiphertextTLS13
+	VerifRecordHeaderLen    = recordHeaderLen
+)
+
+// VerifExtractPadding is extractPadding.
+func VerifExtractPadding(payload []byte) (toRemove int, good byte) { return extractPadding(payload) }
+
+// VerifHalfConn is one direction of the record layer (halfConn).
+type VerifHalfConn struct {
+	hc halfConn
+}
+
+// VerifNewHalfConn builds a halfConn for a TLS 1.0-1.2 suite the way establishKeys +
+// changeCipherSpec do: cipher/aead and MAC from the suite table with the given keys.
+func VerifNewHalfConn(version, suiteID uint16, key, iv, macKey []byte, isRead bool) (*VerifHalfConn, error) {
+	s, err := verifSuite(version, suiteID)
+	if err != nil {
+		return nil, err
+	}
+	if len(key) != s.keyLen || len(iv) != s.ivLen || len(macKey) != s.macLen {
+		return nil, errors.New("verif: key material lengths do not match the suite")
+	}
+	v := &VerifHalfConn{}
+	var ciph interface{}
+	var mac hash.Hash
+	if s.cipher != nil {
+		ciph = s.cipher(key, iv, isRead)
+		mac = s.mac(macKey)
+	} else {
+		ciph = s.aead(key, iv)
+	}
+	v.hc.prepareCipherSpec(version, ciph, mac)
+	if err := v.hc.changeCipherSpec(); err != nil {
+		return nil, err
+	}
+	return v, nil
+}
+
+// VerifNewHalfConnTLS13 builds a TLS 1.3 halfConn from a traffic secret (setTrafficSecret).
+func VerifNewHalfConnTLS13(suiteID uint16, trafficSecret []byte) (*VerifHalfConn, error) {
+	s, err := verifSuite13(suiteID)
+	if err != nil {
+		return nil, err
+	}
+	v := &VerifHalfConn{}
+	v.hc.version = VersionTLS13
+	v.hc.setTrafficSecret(s, trafficSecret)
+	return v, nil
+}
+
+// Encrypt is halfConn.encrypt: header is the 5-byte record header (type, version, length
+// of payload); the protected record is returned.
+func (v *VerifHalfConn) Encrypt(header, payload []byte, rand io.Reader) ([]byte, error) {
+	if len(header) != recordHeaderLen {
+		return nil, errors.New("verif: record header must be 5 bytes")
+	}
+	rec := make([]byte, recordHeaderLen, recordHeaderLen+len(payload)+64)
+	copy(rec, header)
+	return v.hc.encrypt(rec, append([]byte(nil), payload...), rand)
+}
+
+// Decrypt is halfConn.decrypt on a copy of record (header + protected fragment).
+// alert is the Alert value of the error, -1 if err is nil or not an Alert.
+func (v *VerifHalfConn) Decrypt(record []byte) (plaintext []byte, typ uint8, alert int, err error) {
+	if len(record) < recordHeaderLen {
+		return nil, 0, -1, errors.New("verif: short record")
+	}
+	p, t, err := v.hc.decrypt(append([]byte(nil), record...))
+	alert = -1
+	if a, ok := err.(Alert); ok {
+		alert = int(a)
+	}
+	return append([]byte(nil), p...), uint8(t), alert, err
+}
+
+// Seq returns the current sequence number.
+func (v *VerifHalfConn) Seq() [8]byte { return v.hc.seq }
+
+// SetSeq overwrites the sequence number.
+func (v *VerifHalfConn) SetSeq(s [8]byte) { v.hc.seq = s }
+
+// ExplicitNonceLen is halfConn.explicitNonceLen.
+func (v *VerifHalfConn) ExplicitNonceLen() int { return v.hc.explicitNonceLen() }
+
+// MACSize is the size of the record MAC (0 for AEAD).
+func (v *VerifHalfConn) MACSize() int {
+	if v.hc.mac == nil {
+		return 0
+	}
+	return v.hc.mac.Size()
+}
